@@ -155,10 +155,17 @@ def check_case(case, ctx):
             # known finding: on networks with internal cycles the heuristic is not exact. The exact comparison is kept
             # for acyclic networks (loopless FVA must equal plain FVA there); for cyclic ones the remaining relations
             # (inside the plain range, min<=max, frame, model unchanged) are still evaluated.
+            # The deviation is confined to internal query reactions, or to objectives that contain an internal
+            # reaction (experiment over 1400 cyclic networks at four seeds: every boundary end was exact when the
+            # objective had boundary reactions only, as it must be: cycles never change boundary fluxes), so those
+            # ends are still compared exactly.
             ctx.excluded_by("loopless-fva-inexact")
-            exact = {rid: (None, None) for rid in want_ids}
+            obj_internal = any(v and rid in internal for rid, v in spec["objective"].items())
+            exact = {rid: (ll[rid] if (rid not in internal and not obj_internal) else (None, None)) for rid in want_ids}
             loopless_skip_exact = True
             classes.append("loopless-cyclic-network")
+            if any(e != (None, None) for e in exact.values()):
+                classes.append("loopless-cyclic-boundary-ends-compared")
         else:
             exact = ll
             loopless_skip_exact = False
